@@ -1056,13 +1056,19 @@ func c01Collapse(c *kit.Ctx, m *storeModel, r5 *kit.Rule) {
 			continue
 		}
 		o := r5.Ob(w.F, w.Begin, w.Table+": de-duplication before merge", "the batch is de-duplicated on every path before the transaction begins")
-		f := w.F
+		// evaluated from the function the handlers call (the writer, or a wrapper that
+		// de-duplicates and then hands the batch, or slices of it, to the writer)
+		f := w.Entry
 		st := &kit.Std{F: f}
+		st.ShouldInline = func(g *kit.Func, call *ast.CallExpr) bool { return f != w.F && g == w.F }
 		missing := false
 		st.OnCall = func(call *ast.CallExpr, n ast.Node, s kit.S) []kit.S {
-			if f.CalleeFunc(call) == cf {
-				if sel, ok := ast.Unparen(call.Fun).(*ast.SelectorExpr); ok && kit.ObjOf(f.Info(), sel.X) == types.Object(w.Batch) {
-					return []kit.S{s.Set("col", "1")}
+			if st.Cur().CalleeFunc(call) == cf {
+				if sel, ok := ast.Unparen(call.Fun).(*ast.SelectorExpr); ok {
+					root := rootIdent(st.Resolve(sel.X))
+					if o := kit.ObjOf(f.Info(), root); root != nil && (o == types.Object(w.EntryBatch) || o == types.Object(w.Batch)) {
+						return []kit.S{s.Set("col", "1")}
+					}
 				}
 			}
 			if call == w.Begin && s.Get("col") != "1" {
